@@ -41,6 +41,9 @@ func GenDaemon(prop string, seed uint64, tier string) *DaemonScenario {
 		// a panic there kills the process like any other
 		sc := GenDaemon("C10", seed, tier)
 		sc.Prop = "C14"
+		if sc.Check != nil {
+			sc.Check.Corrupt = 0 // the store is not damaged on purpose here: what it serves is judged
+		}
 		return sc
 	}
 	if prop == "C02" && seed%3 == 2 {
@@ -53,7 +56,7 @@ func GenDaemon(prop string, seed uint64, tier string) *DaemonScenario {
 			sc.Backend, sc.MemSize = "memdb", r.Range(10, 13)
 		}
 		if sc.Check == nil {
-			cp := &CheckPlan{AtMs: sc.HealAtMs - int64(r.Range(1, 3))*int64(sc.PeriodS)*1000, Node: r.Intn(sc.N), Corrupt: r.Range(1, 4)}
+			cp := &CheckPlan{AtMs: sc.HealAtMs - int64(r.Range(1, 3))*int64(sc.PeriodS)*1000, Node: r.Intn(sc.N)}
 			for i := 0; i < sc.N; i++ {
 				if i != cp.Node {
 					cp.Peers = append(cp.Peers, i)
@@ -61,12 +64,16 @@ func GenDaemon(prop string, seed uint64, tier string) *DaemonScenario {
 			}
 			sc.Check = cp
 		}
+		sc.Check.Corrupt = 0 // the store is not damaged on purpose here: the final scan judges what it holds
 		return sc
 	}
 	if prop == "C01" && seed%4 == 3 {
 		// the store of a follower and of a node repairing its chain is filled by peers alone, some of them lying
 		sc := GenDaemon("C10", seed, tier)
 		sc.Prop = "C01"
+		if sc.Check != nil {
+			sc.Check.Corrupt = 0 // the store is not damaged on purpose here: what it holds and serves is judged
+		}
 		return sc
 	}
 	r := NewRng(seed ^ 0xdae401)
